@@ -13,6 +13,7 @@ def main():
     repo = os.path.join(scratch, 'repo')
     try:
         subprocess.run(['git', 'clone', '-q', '/repo', repo], check=True)
+        shutil.copy('/repo/Cargo.lock', os.path.join(repo, 'Cargo.lock'))
         env = dict(os.environ); env['VERIF_REPO'] = repo; env['VERIF_OUT'] = os.path.join(scratch, 'out')
         for sid in ids:
             d = os.path.join(V, 'seeded', sid); meta = json.load(open(os.path.join(d, 'meta.json')))
